@@ -482,8 +482,8 @@ fn pool_prefixes() -> Vec<Pfx> {
 
 fn pfx_s() -> BoxedStrategy<Pfx> {
     prop_oneof![
-        4 => prop::sample::select(pool_prefixes()),
-        1 => (any::<bool>(), dense_u128(), any::<u8>()).prop_map(|(v6, a, l)| {
+        3 => prop::sample::select(pool_prefixes()),
+        2 => (any::<bool>(), dense_u128(), any::<u8>()).prop_map(|(v6, a, l)| {
             let a = if v6 { a } else { (a >> 96) ^ (a & 0xFFFF_FFFF) };
             Pfx::new(v6, a, l % if v6 { 129 } else { 33 })
         }),
@@ -512,8 +512,9 @@ fn comment_s() -> BoxedStrategy<Option<String>> {
     prop::option::weighted(0.6, prop::collection::vec(ch, 0..12).prop_map(|v| v.into_iter().collect::<String>())).boxed()
 }
 
-fn no_comment() -> BoxedStrategy<Option<String>> {
-    Just(None).boxed()
+/// A comment is not a criterion: filters in the drop checks carry one now and then.
+fn short_comment() -> BoxedStrategy<Option<String>> {
+    prop_oneof![3 => Just(None), 1 => Just(Some(String::new())), 1 => Just(Some("local policy".to_string()))].boxed()
 }
 
 fn origin_s() -> BoxedStrategy<PayloadSpec> {
@@ -526,7 +527,17 @@ fn origin_s() -> BoxedStrategy<PayloadSpec> {
 }
 
 fn router_key_s() -> BoxedStrategy<PayloadSpec> {
-    (ski_s(), asn_s(), prop_oneof![3 => prop::collection::vec(any::<u8>(), 0..8), 1 => prop::collection::vec(any::<u8>(), 0..120)])
+    (
+        ski_s(),
+        asn_s(),
+        prop_oneof![
+            30 => prop::collection::vec(any::<u8>(), 0..8),
+            10 => prop::collection::vec(any::<u8>(), 0..120),
+            // beyond one Base64 line / 256 octets / 1 KiB
+            3 => prop::collection::vec(any::<u8>(), 250..262),
+            2 => prop::collection::vec(any::<u8>(), 120..1300),
+        ],
+    )
         .prop_map(|(ski, asn, info)| PayloadSpec::RouterKey { ski, asn, info })
         .boxed()
 }
@@ -561,11 +572,47 @@ fn filters_s(comment: fn() -> BoxedStrategy<Option<String>>) -> BoxedStrategy<Fi
 }
 
 fn drop_strategy(_: Tier) -> BoxedStrategy<DropCase> {
-    (filters_s(no_comment), prop::collection::vec(payload_s(), 1..=6), any::<u16>(), any::<u16>())
-        .prop_map(|(filters, mut payloads, i, j)| {
+    (filters_s(short_comment), prop::collection::vec(payload_s(), 1..=6), any::<u16>(), any::<u16>(), any::<u128>())
+        .prop_map(|(filters, mut payloads, i, j, r)| {
             // aim one payload at an existing filter so that matches are frequent
             let k = pick_idx(j, payloads.len());
             match &payloads[k] {
+                // an origin whose prefix is related to a filter's prefix at any pair of lengths:
+                // the same, more specific by 1..n bits (any bits), less specific, or differing in
+                // one of the filter prefix's own bits
+                PayloadSpec::Origin { asn, .. } if filters.prefix.iter().any(|f| f.prefix.is_some()) && r & 3 != 0 => {
+                    let with: Vec<&PrefixFilterSpec> = filters.prefix.iter().filter(|f| f.prefix.is_some()).collect();
+                    let f = with[pick_idx(i, with.len())];
+                    let fp = f.prefix.unwrap();
+                    let fam = fp.fam();
+                    let shift = |len: u8| (fam - len) as u32;
+                    let low = |addr: u128| if fp.v6 { addr } else { addr & 0xFFFF_FFFF };
+                    let prefix = match (r >> 2) & 3 {
+                        0 => fp,
+                        1 => {
+                            // more specific: keep the filter's bits, random bits behind them
+                            let extra = 1 + ((r >> 8) as u8) % (fam - fp.len).max(1);
+                            let len = (fp.len + extra).min(fam);
+                            let tail = if shift(fp.len) == 0 { 0 } else { low(r >> 16) & fp.host_mask() };
+                            Pfx::new(fp.v6, fp.addr.0 | tail, len)
+                        }
+                        2 => Pfx::new(fp.v6, fp.addr.0, fp.len - ((r >> 8) as u8) % (fp.len + 1)),
+                        _ => {
+                            // one of the filter's own bits flipped, same or greater length
+                            if fp.len == 0 {
+                                fp
+                            } else {
+                                let bit = ((r >> 8) as u8) % fp.len;
+                                let extra = ((r >> 16) as u8) % (fam - fp.len + 1);
+                                Pfx::new(fp.v6, fp.addr.0 ^ (1u128 << (fam - 1 - bit)), fp.len + extra)
+                            }
+                        }
+                    };
+                    let asn = if (r >> 4) & 1 == 0 { f.asn.unwrap_or(*asn) } else { *asn };
+                    let ml = (r >> 40) as u8;
+                    let max_len = if ml & 1 == 0 { None } else { Some(prefix.len + (ml >> 1) % (fam - prefix.len + 1)) };
+                    payloads[k] = PayloadSpec::Origin { prefix, max_len, asn };
+                }
                 PayloadSpec::RouterKey { info, .. } if !filters.bgpsec.is_empty() => {
                     let f = &filters.bgpsec[pick_idx(i, filters.bgpsec.len())];
                     payloads[k] = PayloadSpec::RouterKey { ski: f.ski.unwrap_or(SKI_EQ), asn: f.asn.unwrap_or(ASN_EQ), info: info.clone() };
